@@ -340,6 +340,7 @@ func (e *Engine) checkAssert(st *State, name string, cond *Term) {
 }
 
 func (e *Engine) recordViolation(st *State, kind, name, site string, mdl map[string]uint64) {
+	st.violated = true
 	if mdl == nil {
 		e.solver.SyncTo(st.pcList())
 		r, m2 := e.solver.CheckModel(nil, e.inputVars(st, nil))
